@@ -22,6 +22,7 @@ Section KindCF.
   Notation CK := (clean_kind vr w rc rp ro).
 
   Hypothesis Hrc : forall cid0 i d o, P cid0 = true -> plain_dict d = true -> rc cid0 false i d = Ok o -> cfo cid0 o = true.
+  Hypothesis Hnoobs : forall vv, P (obs_tag vv) = false.
 
   Lemma hashes_loop_cf : forall names l acc hc p h,
     hashes_loop vr names false l acc hc = Ok (p, h) -> hc = false ->
@@ -51,7 +52,8 @@ Section KindCF.
     forall interop v p hc, plain_json v = true ->
     CK k false interop v = Ok (p, hc) -> cf_val w cfo k p = true.
   Proof.
-    induction k; intros Hk interop jv pv hcv Hv H; cbn [kind_proved] in Hk; try discriminate; cbn [cf_val]; try reflexivity;
+    induction k; intros Hk interop jv pv hcv Hv H; cbn [kind_proved] in Hk; try discriminate;
+      try (rewrite Hnoobs in Hk; discriminate); cbn [cf_val]; try reflexivity;
       cbn [clean_kind] in H; try discriminate.
     - (* hashes *)
       unfold clean_hashes, bind in H. destruct (clean_dictionary vr v jv); try discriminate.
@@ -110,6 +112,7 @@ Section ObjCF.
   Variable P : ustring -> bool.
   Variable cfo : ustring -> pval -> bool.
   Hypothesis Hrc : forall cid0 i d o, P cid0 = true -> plain_dict d = true -> rc cid0 false i d = Ok o -> cfo cid0 o = true.
+  Hypothesis Hnoobs : forall vv, P (obs_tag vv) = false.
 
   Variable c : cls.
   Variable interop : bool.
@@ -150,7 +153,7 @@ Section ObjCF.
       rewrite Es in Hv. rewrite alookup_aset_same in Hv. destruct Hv as [v0 [h [E1 E2]]]. inv E1.
       assert (Hkp : kind_proved vr P (skind sl) = true).
       { apply orb_true_iff in Hkind. destruct Hkind as [Hk | Hk]; auto. apply ustr_eqb_eq in Hk. congruence. }
-      eapply cf_aset; eauto. eapply (clean_kind_cf vr w rc rp ro P cfo Hrc); eauto.
+      eapply cf_aset; eauto. eapply (clean_kind_cf vr w rc rp ro P cfo Hrc Hnoobs); eauto.
     - unfold step in H. rewrite assign_raw_spec in H. rewrite Ek in H. rewrite Es in H.
       subst n. apply amem_alookup_none in Hf.
       unfold bind in H.
@@ -340,7 +343,7 @@ Section RunCF.
         - match type of H with match ?g with _ => _ end = _ => destruct g as [obj | |] eqn:Eg; try discriminate end.
           exists kw, obj. repeat split; auto. }
       destruct Hgen as [kw1 [obj [Hp1 [Hcg Hpost]]]].
-      destruct (cg_cf vr ev w pattern_ok selectors_ok rc rp ro (nestable w ids) (cf_obj w f) Hrc c interop vrf Hnd Hslots
+      destruct (cg_cf vr ev w pattern_ok selectors_ok rc rp ro (nestable w ids) (cf_obj w f) Hrc (nestable_no_tag w ids) c interop vrf Hnd Hslots
                   (S f) kw1 obj Hp1 Hcg) as [S0 [Eobj [Hcf HndS]]].
       subst obj.
       pose proof (cf_values_forallb w (cf_obj w f) c S0 Hcf HndS) as Hall.
